@@ -145,6 +145,42 @@ def h_enc_float(m):
             "float is not 4 bytes little-endian IEEE-754 single (round to nearest even)")
 
 
+def h_enc_double_twice(m):
+    """the bytes of a value do not depend on values written earlier (a memoising encoder must key on the bit
+    pattern: 0.0 == -0.0 and 1 == 1.0 in Python)"""
+    x1, x2 = m.f64("x1"), m.f64("x2")
+    E = m.mod(ENC).BinaryEncoder
+    E(m.out()).write_double(x1)
+    out = m.out()
+    E(out).write_double(x2)
+    b = m.byte_terms(out.getvalue())
+    sp = spec_f64_bytes(Z(x2))
+    m.prove("double.second_call", z3.And(*[b[i] == sp[i] for i in range(8)]) if len(b) == 8 else z3.BoolVal(False),
+            "the encoding of a double depends on a double written before it")
+
+
+def h_enc_float_twice(m):
+    x1, x2 = m.f64("x1"), m.f64("x2")
+    m.assume(z3.And(z3.Not(spec_f32_overflow(Z(x1))), z3.Not(spec_f32_overflow(Z(x2)))))
+    E = m.mod(ENC).BinaryEncoder
+    E(m.out()).write_float(x1)
+    out = m.out()
+    E(out).write_float(x2)
+    b = m.byte_terms(out.getvalue())
+    sp = spec_f32_bytes(Z(x2))
+    m.prove("float.second_call", z3.And(*[b[i] == sp[i] for i in range(4)]) if len(b) == 4 else z3.BoolVal(False),
+            "the encoding of a float depends on a float written before it")
+
+
+def h_enc_long_twice(m):
+    n1, n2 = m.int("n1", *I64), m.int("n2", *I64)
+    E = m.mod(ENC).BinaryEncoder
+    E(m.out()).write_long(n1)
+    out = m.out()
+    E(out).write_long(n2)
+    check_varint(m, "long.second_call", m.byte_terms(out.getvalue()), n2)
+
+
 def h_enc_nan(m):
     """NaN inputs are compared by class only"""
     x = m.f64("x", nan=True)
@@ -257,6 +293,9 @@ ENC_HARNESSES = [
     (h_enc_double, "enc", ["double"]),
     (h_enc_float, "enc", ["float", "float.no_silent_inf", "float.overflow_only_when_unrepresentable"]),
     (h_enc_nan, "enc", ["write_double.nan", "write_float.nan"]),
+    (h_enc_double_twice, "enc", ["double.second_call"]),
+    (h_enc_float_twice, "enc", ["float.second_call"]),
+    (h_enc_long_twice, "enc", ["long.second_call.len", "long.second_call.bytes"]),
     (h_enc_bytes, "enc", ["bytes.prefix.len", "bytes.prefix.bytes", "bytes.payload"]),
     (h_enc_utf8, "enc", ["string.prefix.len", "string.prefix.bytes", "string.payload"]),
     (h_enc_fixed, "enc", ["fixed"]),
